@@ -39,7 +39,7 @@ TIERS = {
                                    'tf:matrix', 'tf:rotate3', 'tf:skewX', 'tf:skewY', 'tf:scale1', 'tf:translate1',
                                    'shape:rect-rounded', 'shape:rect-radius-clamped', 'shape:rect-one-radius-clamped', 'shape:line-defaults',
                                    'shape:ellipse', 'nesting>=3']},
-    'thorough': {'shards': 14, 'random': 60000, 'timeout': 3400, 'min_cases': 40000,
+    'thorough': {'shards': 14, 'random': 24000, 'timeout': 3400, 'min_cases': 12000,
                  'require_branches': ['reader:Document.paths', 'reader:paths_from_group', 'reader:svg2paths',
                                       'reader:SaxDocument', 'tf:matrix', 'tf:rotate3', 'tf:skewX', 'tf:skewY',
                                       'tf:scale1', 'tf:translate1', 'shape:rect-rounded', 'shape:rect-radius-clamped', 'shape:rect-one-radius-clamped',
